@@ -57,6 +57,55 @@ fn overlap(_sc: &Scenario, rr: &RunResult) -> bool {
 pub fn lanes() -> Vec<Lane> {
     let mut v = lanes_base();
     v.push(fault_lane());
+    v.push(frame_lane());
+    v.push(Lane {
+        prop: "C02",
+        family: "SEQ",
+        gen: gen::gen_seq,
+        cfg: cfg_default,
+        check: oracle::check_c02,
+        nontrivial: seq_nontrivial,
+        rule: "seeded SEQ scenarios (one handle, 2-10 calls over every operation kind with generated DNs, byte values incl. NUL / non-UTF-8 / 20 KB, empty and 50-element lists, filters rendered from generated syntax trees with three escaping styles, all search options, 0-4 controls; modifiers set per call, by a separate earlier call, overwritten, or followed by an operation that ignores them; calls refused before sending); non-trivial = at least one request carried controls or non-default search options, or a modifier was set before an operation that does not use it; distinct = distinct history-shape hash",
+        expand: None,
+        quick: 150_000,
+        thorough: 4_000_000,
+    });
+    v.push(Lane {
+        prop: "C02",
+        family: "MUX",
+        gen: gen::gen_mux,
+        cfg: cfg_default,
+        check: oracle::check_c02,
+        nontrivial: overlap,
+        rule: "MUX scenarios: the request model is applied to concurrent handles (per-handle modifier state); non-trivial = two operations outstanding at once",
+        expand: None,
+        quick: 50_000,
+        thorough: 1_000_000,
+    });
+    v.push(Lane {
+        prop: "C03",
+        family: "SEQ",
+        gen: gen::gen_seq,
+        cfg: cfg_default,
+        check: oracle::check_c03,
+        nontrivial: seq_resp_nontrivial,
+        rule: "seeded SEQ scenarios: every response type with result codes 0..123 and random codes up to 2^31-1, empty / multi-byte / 20 KB matched-DN and diagnostic strings, 0-4 referral URIs, 0-4 response controls with absent / TRUE / explicit FALSE criticality and absent / empty / non-empty value, extended name/value in all presence combinations, server SASL credentials, every TLV encoded with 0-3 superfluous length octets; non-trivial = a response carried controls, referrals or a non-minimal length form; distinct = distinct history-shape hash",
+        expand: None,
+        quick: 150_000,
+        thorough: 4_000_000,
+    });
+    v.push(Lane {
+        prop: "C03",
+        family: "MUX",
+        gen: gen::gen_mux,
+        cfg: cfg_default,
+        check: oracle::check_c03_mux,
+        nontrivial: overlap,
+        rule: "MUX scenarios: returned values against the response model under concurrency; non-trivial = two operations outstanding at once",
+        expand: None,
+        quick: 50_000,
+        thorough: 1_000_000,
+    });
     v
 }
 
@@ -172,6 +221,20 @@ fn ids_nontrivial(_sc: &Scenario, rr: &RunResult) -> bool {
 
 fn time_nontrivial(_sc: &Scenario, rr: &RunResult) -> bool {
     rr.hist.iter().any(|e| matches!(&e.kind, EvKind::Return { ret: crate::world::Ret::Err(crate::world::ErrC::Timeout), .. }))
+}
+
+fn seq_nontrivial(sc: &Scenario, rr: &RunResult) -> bool {
+    let _ = sc;
+    rr.requests.iter().any(|q| q.ctrls.is_some() || matches!(&q.op, crate::msg::ReqOp::Search { deref, size, time, types_only, .. } if *deref != 0 || *size != 0 || *time != 0 || *types_only))
+}
+
+fn seq_resp_nontrivial(sc: &Scenario, _rr: &RunResult) -> bool {
+    sc.knobs.lenform_extra_max > 0
+        || sc.plan.by_token.values().any(|p| match p {
+            crate::scenario::ReplyPlan::Single { res, ctrls, .. } => ctrls.is_some() || res.refs.is_some(),
+            crate::scenario::ReplyPlan::Items { done: Some(d), .. } => d.ctrls.is_some() || d.res.refs.is_some(),
+            _ => false,
+        })
 }
 
 fn cfg_strict_stream(_sc: &Scenario, c: &mut RunCfg) {
@@ -485,5 +548,105 @@ pub fn fault_lane() -> Lane {
         expand: Some(expand_fault),
         quick: 400,
         thorough: 12_000,
+    }
+}
+
+// ---------------------------------------------------------------------------------------------
+// FRAME: partitions of one response burst
+// ---------------------------------------------------------------------------------------------
+
+fn expand_frame(lane: &Lane, verif_seed: u64, index: u64) -> Vec<Case> {
+    use crate::scenario::Chunking;
+    let s = seeds(verif_seed, lane.family, index);
+    let base = (lane.gen)(s.scenario);
+    let cfg0 = || RunCfg { tokio_seed: s.tokio, ..Default::default() };
+    let rref = runner::run(&base, Sched::from_seed(s.sched), &cfg0());
+    // length of the first burst: everything emitted at the first emission instant
+    let t_first = rref.hist.iter().find_map(|e| if let EvKind::SrvEmit { .. } = &e.kind { Some(e.t_ms) } else { None }).unwrap_or(0);
+    let burst: usize = rref
+        .hist
+        .iter()
+        .filter_map(|e| match &e.kind {
+            EvKind::SrvEmit { range, .. } if e.t_ms == t_first => Some(range.1),
+            _ => None,
+        })
+        .max()
+        .unwrap_or(0);
+    let mut out = vec![Case { sc: base.clone(), trace: None, sched_seed: s.sched, cfg: cfg0(), label: "reference/whole".into() }];
+    let mut rng = crate::rng::Rng::new(mix(&[s.run, 99]));
+    let thorough = tier() == "thorough";
+    let mut push = |chunking: Chunking, max_read: usize, pend: u32, rcap: bool, label: String, out: &mut Vec<Case>| {
+        let mut sc = base.clone();
+        sc.knobs.chunking = chunking;
+        sc.knobs.max_read = max_read;
+        sc.knobs.read_pending_pm = pend;
+        sc.knobs.random_read_cap = rcap;
+        let k = out.len() as u64;
+        out.push(Case { sc, trace: None, sched_seed: mix(&[s.sched, k]), cfg: cfg0(), label });
+    };
+    // every two-chunk split point of the burst
+    let limit = if thorough { 4000 } else { 500 };
+    let stride = if burst <= limit { 1 } else { burst / limit + 1 };
+    let mut k = 1;
+    while k < burst {
+        let mr = *rng.pick(&[0usize, 0, 0, 1, 2, 7, 64, 4096]);
+        let mr = if burst > 4096 && mr > 0 && mr < 64 { 64 } else { mr };
+        push(Chunking::Explicit(vec![k]), mr, 0, false, format!("split@{k}/max_read={mr}"), &mut out);
+        k += stride;
+    }
+    // three-chunk splits at a sample
+    for _ in 0..(if thorough { 60 } else { 12 }) {
+        if burst > 3 {
+            let a = 1 + rng.usize(burst - 2);
+            let b = 1 + rng.usize(burst - a - 1).max(0);
+            push(Chunking::Explicit(vec![a, b]), 0, 0, false, format!("split3@{a}+{b}"), &mut out);
+        }
+    }
+    let small = burst <= 2048;
+    for &mr in &[1usize, 2, 7, 64, 4096, 0] {
+        if !small && mr > 0 && mr < 64 {
+            continue;
+        }
+        push(Chunking::Whole, mr, 0, false, format!("whole/max_read={mr}"), &mut out);
+        push(Chunking::Whole, mr, 300, false, format!("whole/max_read={mr}/pending-despite-data"), &mut out);
+        push(Chunking::Random { max: if small { 16 } else { 2000 } }, mr, 0, false, format!("random/max_read={mr}"), &mut out);
+        for shift in [-1, 0, 1] {
+            push(Chunking::FrameAligned { shift }, mr, 0, false, format!("frame-aligned{shift:+}/max_read={mr}"), &mut out);
+        }
+    }
+    push(Chunking::Whole, 0, 0, true, "whole/random-read-cap".into(), &mut out);
+    if small {
+        push(Chunking::OneByte, 0, 0, false, "one-byte".into(), &mut out);
+        push(Chunking::OneByte, 1, 100, false, "one-byte/max_read=1/pending".into(), &mut out);
+    } else {
+        push(Chunking::Random { max: 300 }, 0, 0, false, "random300".into(), &mut out);
+    }
+    out
+}
+
+fn frame_nontrivial(_sc: &Scenario, rr: &RunResult) -> bool {
+    // some frame was split across deliveries or reads: a delivery or a short read ended inside a frame
+    let mut frame_ends: std::collections::BTreeSet<usize> = Default::default();
+    for e in &rr.hist {
+        if let EvKind::SrvEmit { range, .. } = &e.kind {
+            frame_ends.insert(range.1);
+        }
+    }
+    let split_delivery = rr.hist.iter().any(|e| matches!(&e.kind, EvKind::NetDeliver { upto } if !frame_ends.contains(upto)));
+    split_delivery || rr.stats.counters.get("io.short_reads").copied().unwrap_or(0) > 0
+}
+
+pub fn frame_lane() -> Lane {
+    Lane {
+        prop: "C06",
+        family: "FRAME",
+        gen: gen::gen_frame_base,
+        cfg: cfg_default,
+        check: oracle::check_c06,
+        nontrivial: frame_nontrivial,
+        rule: "per index one seeded burst of 1-12 response frames (7 bytes to 65 KB, random legal length forms) for pending operations; partitions: every two-chunk split point (stride >1 only above 500 / 4000 points), three-chunk splits, one byte at a time, frame-aligned and +-1, random chunks, everything at once, each under max_read in {1,2,7,64,4096,unlimited} and with Pending-despite-data; chunks after the first arrive one simulated millisecond later; non-trivial = a delivery or a read ended inside a frame; distinct = distinct history-shape hash",
+        expand: Some(expand_frame),
+        quick: 250,
+        thorough: 6000,
     }
 }
